@@ -1,4 +1,4 @@
-import Pymeeus.Refine.SunEarth
+import Pymeeus.Refine.MoonNode
 /-
 C08 — Sun/Earth across frames; obliquity and nutation.
 
@@ -8,13 +8,13 @@ the Earth's tables and the nutation tables regenerated from the source.
 
 Not carried by any theorem (agreements between independent series; see harness/c08.py): "equals the of-date
 position carried there by the library's own precession to 2″ (1e-5 AU)" and "the low-accuracy solar formulas
-agree with the VSOP87 ones to 0.02°".  The comparison of the nutation with the main-term model is proved for the
-series' OWN node polynomial (`Spec.nutationNode`); `Moon.longitude_mean_ascending_node` is a slightly
-different polynomial (≤ 0.06° apart for |T| ≤ 40, i.e. ≤ 0.02″ in the main term) and is compared numerically.
+agree with the VSOP87 ones to 0.02°".  The comparison of the nutation with the main-term model is proved both
+for the series' own node polynomial (`Spec.nutationNode`) and for `Moon.longitude_mean_ascending_node`, a
+slightly different polynomial (≤ 0.06° apart for |T| ≤ 40 centuries, i.e. ≤ 0.02″ in the main term).
 -/
 noncomputable section
 namespace Pymeeus.C08
-open Pymeeus Pymeeus.PR Pymeeus.GenR Pymeeus.Refine.Vsop Pymeeus.Refine.SunEarth
+open Pymeeus Pymeeus.PR Pymeeus.GenR Pymeeus.GenR.Helio Pymeeus.Refine.Vsop Pymeeus.Refine.SunEarth
 
 /-! ## Reflection -/
 
@@ -161,6 +161,14 @@ theorem moon_node_range (jde : ℝ) :
     0 ≤ longitude_mean_ascending_node jde ∧ longitude_mean_ascending_node jde < 360 := by
   unfold longitude_mean_ascending_node angOfDeg
   exact angToPositive_range _ (angReduce_abs _).1
+
+/-- "nutation in longitude and obliquity stay within 3.5 and 1.5 arcsec of the 18.6-year main-term model built
+    on the Moon's node": with Ω = `Moon.longitude_mean_ascending_node(epoch)`, for every epoch within 40
+    centuries of J2000.0, `|Δψ + 17.1996″ sin Ω| ≤ 3.5″` and `|Δε − 9.2025″ cos Ω| ≤ 1.5″`. -/
+theorem nutation_vs_moon_node_model (jde : ℝ) (h : |(jde - 2451545) / 36525| ≤ 40) :
+    |nutation_longitude jde * 3600 + 17.1996 * Real.sin (angRad (longitude_mean_ascending_node jde))| ≤ 3.5 ∧
+    |nutation_obliquity jde * 3600 - 9.2025 * Real.cos (angRad (longitude_mean_ascending_node jde))| ≤ 1.5 :=
+  ⟨(nutation_longitude_moon_node jde h).trans (by norm_num), (nutation_obliquity_moon_node jde h).trans (by norm_num)⟩
 
 /-! ### non-vacuity -/
 
